@@ -825,7 +825,7 @@ func TestC28(t *testing.T) {
 	r.Coq("From Verif Require Import Selfmon.Selfmon.", "Selfmon.case", "Selfmon.agree", "Selfmon.ok")
 	g := gen{r.Rng}
 	hs := corpus()
-	n := r.N(4, 150)
+	n := r.N(3, 150)
 	for i := 0; i < n; i++ {
 		hs = append(hs, g.history(fmt.Sprintf("rand-%d", i), 7+r.Rng.Intn(6)))
 	}
